@@ -96,9 +96,7 @@ Print Assumptions C14_squashed_mode_partial.
 
 Theorem C14_squashed_mode_not_maximiser_refuted' :
   exists (mu ls a : R), -1 < a < 1 /\
-    squashed_pdf mu (exp ls) (nth 0 (squashed_mode [(mu, ls)]) 0) < squashed_pdf mu (exp ls) a /\
-    squashed_logprob_g 1e-6 [(mu, ls)] (squashed_mode [(mu, ls)]) (gauss_mode [(mu, ls)])
-    < squashed_logprob_g 1e-6 [(mu, ls)] [a] [artanh a].
+    squashed_pdf mu (exp ls) (nth 0 (squashed_mode [(mu, ls)]) 0) < squashed_pdf mu (exp ls) a.
 Proof. exact C14_squashed_mode_not_maximiser_refuted. Qed.
 Print Assumptions C14_squashed_mode_not_maximiser_refuted'.
 
